@@ -124,6 +124,7 @@ def run(rep, tier):
                      + tok(c['bkg']) + ' | ' + ' '.join(map(str, labels)))
         checks.append((c, rows))
         probes(rep, r, c, cat, rows)
+    thin_segments_probe(rep, r, 40 * scale)
     out = drv.run(lines)
     if out is None:
         rep.tie_broken('model driver failed', drv.error)
@@ -309,6 +310,56 @@ def background_at_centroid(rep, c, cat):
             return
 
 
+def thin_segments_probe(rep, r, n):
+    """(S) "infinitely thin" sources (one-pixel-wide lines, incl. diagonals whose covariance determinant is exactly zero): the shape
+    parameters are finite and equal the documented regularisation (1/12 added to the diagonal until det >= 1/144), evaluated exactly"""
+    from photutils.segmentation import SourceCatalog, SegmentationImage
+    for k in range(n):
+        L = r.randint(2, 8)
+        kind = r.choice(['diag', 'antidiag', 'row', 'col', 'single'])
+        if kind == 'single':
+            L = 1
+        img = np.zeros((12, 13))
+        seg = np.zeros((12, 13), int)
+        pts = []
+        for i in range(L):
+            y, x = {'diag': (2 + i, 1 + i), 'antidiag': (2 + i, 11 - i), 'row': (5, 2 + i), 'col': (2 + i, 6), 'single': (4, 7)}[kind]
+            seg[y, x] = 1
+            img[y, x] = r.randint(1, 64) / 8
+            pts.append((y, x))
+        with warnings.catch_warnings():
+            warnings.simplefilter('ignore')
+            cat = SourceCatalog(img, SegmentationImage(seg))
+            got = [float(np.atleast_1d(getattr(cat, nm).value)[0]) for nm in ('semimajor_sigma', 'semiminor_sigma', 'orientation')]
+        rep.case(('thin', kind, img.tobytes()), True, kind=f'thin-source:{kind}')
+        rep.probe_only += 1
+        w = [F(img[y, x]) for y, x in pts]
+        m00 = sum(w)
+        cx = sum(wi * x for wi, (y, x) in zip(w, pts)) / m00
+        cy = sum(wi * y for wi, (y, x) in zip(w, pts)) / m00
+        a = sum(wi * (x - cx) ** 2 for wi, (y, x) in zip(w, pts)) / m00       # mu20 / m00 (x variance)
+        cc = sum(wi * (y - cy) ** 2 for wi, (y, x) in zip(w, pts)) / m00      # mu02 / m00
+        b = sum(wi * (x - cx) * (y - cy) for wi, (y, x) in zip(w, pts)) / m00
+        while a * cc - b * b < F(1, 144):
+            a += F(1, 12)
+            cc += F(1, 12)
+        tr, df = float(a + cc) / 2, float(a - cc) / 2
+        rad = math.sqrt(df * df + float(b) ** 2)
+        exp = [math.sqrt(tr + rad), math.sqrt(max(tr - rad, 0.0))]
+        rp = {'kind': kind, 'data': img.tolist(), 'seg': seg.tolist()}
+        if not all(math.isfinite(g) for g in got[:2]):
+            rep.violation(f'thin-source-nan-shape:{kind}', f'a one-pixel-wide {kind} source of {L} pixels has semimajor/semiminor sigma {got[:2]} '
+                          f'(the documented regularisation gives {exp})', rp)
+            continue
+        if not (close(got[0], exp[0], rel=1e-8) and close(got[1], exp[1], rel=1e-8)):
+            rep.violation(f'thin-source-shape:{kind}', f'{kind} source: semimajor/semiminor sigma {got[:2]}, the regularised second moments give {exp}', rp)
+            continue
+        if rad > 1e-9:
+            eo = 0.5 * math.degrees(math.atan2(2 * float(b), float(a - cc)))
+            if abs(((got[2] - eo) + 90.0) % 180.0 - 90.0) > 1e-6:
+                rep.violation(f'thin-source-orientation:{kind}', f'{kind} source: orientation {got[2]} deg, second moments give {eo}', rp)
+
+
 def detection_catalog_probe(rep, r, c):
     """(S) with a detection catalogue (same segmentation image, its own image / mask) the photometric columns are still the defining
     formulas on THIS catalogue's unmasked finite segment pixels (centroids, shapes and `area` come from the detection catalogue by
@@ -325,7 +376,7 @@ def detection_catalog_probe(rep, r, c):
             cat = SourceCatalog(c['data'], SegmentationImage(c['seg'].copy()), error=c['err'], mask=c['mask'], background=c['bkg'],
                                 detection_cat=det, localbkg_width=lw)
             vals = {nm: np.atleast_1d(np.asarray(getattr(getattr(cat, nm), 'value', getattr(cat, nm)), float))
-                    for nm in ('segment_flux', 'segment_fluxerr', 'min_value', 'max_value', 'background_sum', 'local_background')}
+                    for nm in ('segment_flux', 'segment_fluxerr', 'min_value', 'max_value', 'background_sum', 'background_mean', 'local_background')}
             labels = [int(v) for v in np.atleast_1d(cat.labels)]
         except Exception as e:                                  # noqa: BLE001
             rep.violation(f'catalog-raises:detection_cat:{type(e).__name__}', f'SourceCatalog(detection_cat=...) raised {e!r}', rp)
@@ -346,6 +397,7 @@ def detection_catalog_probe(rep, r, c):
                 exp['segment_fluxerr'] = float(np.sqrt((c['err'][good] ** 2).sum()))
             if c['bkg'] is not None:
                 exp['background_sum'] = float(c['bkg'][good].sum())
+                exp['background_mean'] = float(c['bkg'][good].mean())
         for nm, e in exp.items():
             g = float(vals[nm][i])
             if not close(e, g, rel=1e-9, scale=10):
